@@ -47,6 +47,10 @@ def strategy(tier):
         "bad_font": st.one_of(st.integers(-5, 0), st.integers(11, 40), st.sampled_from([1.0, 4.0, 9.0, 10.0, 2.5, 0.5])),   # also float "numbers"
         "bad_name": st.sampled_from(["Times", "arial", "Comic Sans", "", "Courier", "Times New Roman "]),
         "bad_unit": st.sampled_from(["cm", "pt", "IN", "", "inch", "twip"]),
+        # history: another font is measured, then one measurement of THIS font / size fails because the font file cannot be
+        # opened once (OSError); the relations must hold for everything measured afterwards
+        "prior_fault": st.one_of(st.none(), st.none(), st.none(), st.none(), st.none(), st.none(), st.none(),
+                                 st.fixed_dictionaries({"font": st.integers(1, 10), "size": st.sampled_from([6, 9, 12, 30])})),
     })
 
 
@@ -64,6 +68,11 @@ def enumerate_cases(tier):
                    "bad_font": 11, "bad_name": "x", "bad_unit": "cm"}
     # every markup-like token completed by its last character (appending it must not shrink the text), alone, after a
     # word and before a word, in a proportional and in the monospaced font
+    for font in range(1, 11):
+        for other in (1, 4, 9):
+            if other != font:
+                yield {"text": "Subject 1001-ab", "c": "M", "font": font, "size": 10, "size2": 20, "dpi": 96.0,
+                       "bad_font": 11, "bad_name": "x", "bad_unit": "cm", "prior_fault": {"font": other, "size": 12}}
     for tok in TOKENS:
         for font in (1, 4, 9):
             for pre, post in (("", ""), ("Mean ", ""), ("n ", " x")):
@@ -77,12 +86,31 @@ def rel(a, b, tol=1e-9):
     return abs(a - b) <= tol * max(1.0, abs(a), abs(b))
 
 
+def failed_measurement(w, prior, s, font, a):
+    from PIL import ImageFont
+    w("Mq", font=prior["font"], font_size=prior["size"])
+    real = ImageFont.truetype
+
+    def failing(*args, **kw):
+        raise OSError(24, "Too many open files")
+
+    ImageFont.truetype = failing
+    try:
+        w(s or "x", font=font, font_size=a)
+    except Exception:  # noqa: BLE001 - the failed call's own outcome is not judged
+        pass
+    finally:
+        ImageFont.truetype = real
+
+
 def check(case) -> Result:
     from rtflite.strwidth import get_string_width as w
 
     res = Result()
     s, c, font, a, b, dpi = case["text"], case["c"], case["font"], case["size"], case["size2"], case["dpi"]
     name = refdata.font_name(font)
+    if case.get("prior_fault"):
+        failed_measurement(w, case["prior_fault"], s, font, a)
     try:
         w_in = w(s, font=font, font_size=a, unit="in", dpi=dpi)
         w_in72 = w(s, font=font, font_size=a, unit="in")
@@ -131,7 +159,7 @@ def check(case) -> Result:
             except Exception as e:
                 res.fail("rejects", sig + ":" + type(e).__name__, str(e)[:100])
     nonascii = any(ord(ch) > 127 for ch in s)
-    res.labels = [f"font={font}", "nonascii" if nonascii else "ascii", "frac_size" if a != int(a) else "int_size",
+    res.labels = ["history=" + ("after_failed_measurement" if case.get("prior_fault") else "none"), f"font={font}", "nonascii" if nonascii else "ascii", "frac_size" if a != int(a) else "int_size",
                   "dpi72" if dpi == 72.0 else "dpi_other", "empty" if not s else "nonempty"]
     res.nontrivial = bool(s) and (nonascii or a != int(a) or dpi != 72.0)
     return res
